@@ -96,10 +96,18 @@ func (c *Ctx) newFrame(fn *ssa.Function, parent *Frame) *Frame {
 }
 
 func funcKey(fn *ssa.Function) string {
+	s := fn.String()
 	if o := fn.Origin(); o != nil {
-		return o.String()
+		s = o.String()
 	}
-	return fn.String()
+	// methods of generic types are addressed without their type parameter list:
+	// (*pkg.LimitIter[T]).Next -> (*pkg.LimitIter).Next
+	if i := strings.Index(s, "["); i >= 0 && strings.HasPrefix(s, "(") {
+		if j := strings.Index(s[i:], "])"); j >= 0 {
+			s = s[:i] + s[i+j+1:]
+		}
+	}
+	return s
 }
 
 func (f *Frame) pos(i ssa.Instruction) string {
